@@ -1017,39 +1017,45 @@ class LuaASTEchoWriter(BaseLuaWriter):
         Parentheses around a prefix belong to no node when the prefix is an
         operator expression, as in (f or g)(x). They are written here.
         """
-        opens = 0
         if isinstance(exp_prefix, (parser.VarIndex, parser.VarAttribute,
                                    parser.FunctionCall,
                                    parser.FunctionCallMethod)):
             # (Not the head of the chain: a(b)(c).)
-            pass
-        elif self._args.get('ignore_tokens'):
-            if isinstance(exp_prefix, (parser.ExpBinOp, parser.ExpUnOp)):
-                opens = 1
+            for t in self._walk(exp_prefix):
+                yield t
+            return
+        if self._args.get('ignore_tokens'):
+            wrap = isinstance(exp_prefix, (parser.ExpBinOp, parser.ExpUnOp))
+            if wrap:
                 yield b' ('
-        else:
-            # (A binary operator expression is positioned at its operator, so
-            # its first token is the first token of its leftmost operand.)
-            first = exp_prefix
-            while isinstance(first, parser.ExpBinOp):
-                first = first.exp1
-            while True:
-                next_pos = self._pos
-                while (next_pos < first.start_pos and
-                       isinstance(self._tokens[next_pos],
-                                  (lexer.TokSpace, lexer.TokNewline,
-                                   lexer.TokComment))):
-                    next_pos += 1
-                if (next_pos >= first.start_pos or
-                        not self._tokens[next_pos].matches(
-                            lexer.TokSymbol(b'('))):
-                    break
-                opens += 1
-                yield self._get_text(node, b'(')
-        for t in self._walk(exp_prefix):
-            yield t
-        for _ in range(opens):
+            for t in self._walk(exp_prefix):
+                yield t
+            if wrap:
+                yield self._get_text(node, b')')
+            return
+        # (A binary operator expression is positioned at its operator, so its
+        # first token is the first token of its leftmost operand.)
+        first = exp_prefix
+        while isinstance(first, parser.ExpBinOp):
+            first = first.exp1
+        next_pos = self._pos
+        while (next_pos < first.start_pos and
+               isinstance(self._tokens[next_pos],
+                          (lexer.TokSpace, lexer.TokNewline,
+                           lexer.TokComment))):
+            next_pos += 1
+        if (next_pos < first.start_pos and
+                self._tokens[next_pos].matches(lexer.TokSymbol(b'('))):
+            # One pair of parentheses, then whatever is inside it.
+            yield self._get_text(node, b'(')
+            self._indent += 1
+            for t in self._walk_prefix(node, exp_prefix):
+                yield t
+            self._indent -= 1
             yield self._get_text(node, b')')
+        else:
+            for t in self._walk(exp_prefix):
+                yield t
 
     def _walk_VarIndex(self, node):
         for t in self._walk_prefix(node, node.exp_prefix):
